@@ -189,6 +189,7 @@ pub struct FarmOut {
     pub per_run_traces: Vec<(u64, u64)>,
     pub hang: Option<(u64, u64)>,
     pub harness_panics: Vec<String>,
+    pub strata: BTreeSet<String>,
 }
 
 /// Run indices `0..n` of `f` on `workers` threads. Every run is a pure function of
@@ -208,6 +209,7 @@ pub fn farm(f: ScenarioFn, verif_seed: u64, salt: u64, n: u64, thorough: bool, w
         per_run_traces: vec![],
         hang: None,
         harness_panics: vec![],
+        strata: BTreeSet::new(),
     }));
     // watchdog state: per worker (idx+1, start time in ms); 0 = idle
     let started: Arc<Vec<(AtomicU64, AtomicU64)>> =
@@ -252,6 +254,7 @@ pub fn farm(f: ScenarioFn, verif_seed: u64, salt: u64, n: u64, thorough: bool, w
             let mut local_viol = vec![];
             let mut local_samples = vec![];
             let mut local_traces = vec![];
+            let mut local_strata: BTreeSet<String> = BTreeSet::new();
             loop {
                 if done.load(Ordering::Relaxed) {
                     break;
@@ -279,6 +282,13 @@ pub fn farm(f: ScenarioFn, verif_seed: u64, salt: u64, n: u64, thorough: bool, w
                 if keep_traces {
                     local_traces.push((idx, r.trace));
                 }
+                {
+                    let base: Vec<&str> = r.cfg.stratum.split('/').take(5).collect();
+                    let b = base.join("/");
+                    if !local_strata.contains(&b) {
+                        local_strata.insert(b);
+                    }
+                }
                 if r.faults > 0 {
                     fl += 1;
                 } else {
@@ -305,6 +315,7 @@ pub fn farm(f: ScenarioFn, verif_seed: u64, salt: u64, n: u64, thorough: bool, w
             o.violating.extend(local_viol);
             o.samples.extend(local_samples);
             o.per_run_traces.extend(local_traces);
+            o.strata.extend(local_strata);
         }));
     }
     // wait for the workers, or for the watchdog to flag a call that does not return
@@ -341,6 +352,7 @@ pub fn farm(f: ScenarioFn, verif_seed: u64, salt: u64, n: u64, thorough: bool, w
                 per_run_traces: vec![],
                 hang: None,
                 harness_panics: vec![],
+                strata: BTreeSet::new(),
             },
         )
     };
